@@ -106,11 +106,17 @@ def gen_body(rng, ident, allow=("para", "bullets", "numbered", "fenced", "indent
     if footnote:
         # a footnote: reference in a closing paragraph, definition last (rendered at the end of the documentation)
         feats.add("footnote")
-        if lines:
+        label = rng.choice(["1", "1", "offset", "n2"])  # (labels are used as written: they need not be numbers)
+        if lines and re.match(r"^z\w+( z\w+)*$", lines[0]) and rng.random() < 0.5:
+            feats.add("footnote_reference_in_first_paragraph")
+            lines[0] += f" [^{label}]"
             lines.append("")
-        lines.append(f"{w.take(2)} [^1] {w.take(1)}")
-        lines.append("")
-        lines.append(f"[^1]: {w.take(3)}")
+        else:
+            if lines:
+                lines.append("")
+            lines.append(f"{w.take(2)} [^{label}] {w.take(1)}")
+            lines.append("")
+        lines.append(f"[^{label}]: {w.take(3)}")
     return lines, feats
 
 
